@@ -122,6 +122,8 @@ type World struct {
 	problems []problem
 	firstOp  bool // the running operation started with zero tables
 
+	lastBroken string // id of the table that broke most recently ("" = none yet)
+
 	// slices the regulator handed out (callback arguments, SyncState results), kept by the tables as
 	// they were given, next to a private copy: what a table was told must not change afterwards
 	kept []keptSlice
@@ -425,17 +427,31 @@ func (w *World) Do(st Step) (res Result) {
 	case "Status":
 		w.R.SetStatus(reg.CompetitionStatus(st.A))
 	case "SyncUnknown":
-		rel, pl, err := w.R.SyncState("no-such-table", 0)
-		res.Err = err
-		if err == nil {
-			w.bad("unknown-table-accepted", "SyncState on an unknown table returned nil (release %d, players %v)", rel, pl)
+		// refused calls: a table id the regulator never knew, and (when there is one) a table it broke
+		// earlier reporting once more - with and without eliminations. Each must fail and change nothing.
+		ids := []string{"no-such-table"}
+		if w.lastBroken != "" {
+			ids = append(ids, w.lastBroken)
 		}
-		if g := w.R.GetTable("no-such-table"); g != nil {
-			w.bad("unknown-table-accepted", "GetTable on an unknown table returned a table")
-		}
-		post := w.snapshot()
-		if fmt.Sprint(post) != fmt.Sprint(pre) {
-			w.bad("refused-sync-changed-state", "SyncState on an unknown table changed the regulator: %v -> %v", pre, post)
+		for _, id := range ids {
+			if w.R.GetTable(id) != nil {
+				if id == "no-such-table" {
+					w.bad("unknown-table-accepted", "GetTable on an unknown table returned a table")
+				}
+				continue
+			}
+			for _, out := range []int{0, 1, 2} {
+				rel, pl, err := w.R.SyncState(id, out)
+				res.Err = err
+				if err == nil {
+					w.bad("unknown-table-accepted", "SyncState(%s, %d) on a table the regulator does not have returned nil (release %d, players %v)", id, out, rel, pl)
+				}
+				post := w.snapshot()
+				if fmt.Sprint(post) != fmt.Sprint(pre) {
+					w.bad("refused-sync-changed-state", "SyncState(%s, %d) was refused but changed the regulator: %v -> %v", id, out, pre, post)
+					break
+				}
+			}
 		}
 	case "Release":
 		id, ok := w.nthTable(st.A)
@@ -520,6 +536,7 @@ func (w *World) handBack(id string, res *Result) {
 			w.badP("C20", "break-does-not-release-all", "broken table %s keeps %d players", id, len(w.Tab[id]))
 		}
 		delete(w.Tab, id)
+		w.lastBroken = id
 	}
 	for _, p := range out {
 		w.Loc[p] = "queue"
